@@ -44,7 +44,7 @@ P = {
  'C14': ('exploration', 'frame snapshots; dry-run vs real-run differential on identical worlds; reply generator',
          'dry-run leaves snapshot identical and prints exactly what the real run removes; negative replies change nothing (pipe and pty).', '4/C14'),
  'C15': ('fault_enumeration', 'crash-point and interrupt-point enumeration over restore/empty/rm + re-run to completion',
-         'Every crash point of restore/empty/rm runs; no new orphan payload, restored entry complete on one side, re-run completes.', '4/C15'),
+         'Every crash point of restore/empty/rm runs; no new orphan payload, restored entry complete on one side, re-run completes; a killed restore is also followed by trash-restore --overwrite and judged again (virtual device numbers per volume in the restore scenarios).', '4/C15'),
  'C16': ('exploration', 'per-argument differential (list vs alone) + exit/diagnostic oracle',
          'Argument lists mixing classes in all orders; exit status truthful, each failed argument named, outcome equals the outcome alone in an identical world.', '4/C16'),
  'C17': ('fault_enumeration', 'errno injection at every fallible operation (one-shot exhaustive per scenario, persistent, pairs); step-budget termination monitor',
